@@ -632,7 +632,7 @@ def str_eq_chain(body, start_bb=None):
     """Find chains of `<str as PartialEq>::eq(x, const "S")` / `<[u8] as PartialEq>::eq` followed by a
     switch on the result.  Returns list of rows: (const_value, eq_bb, true_target_bb, false_target_bb, lhs_origin)."""
     rows = []
-    for bb, t in body.calls(name='eq'):
+    for bb, t in body.calls(name='eq') + body.calls(name='ne'):
         if len(t['args']) != 2:
             continue
         a, b = body.origin(t['args'][0]), body.origin(t['args'][1])
@@ -657,6 +657,8 @@ def str_eq_chain(body, start_bb=None):
                 tgt_true = st['else']
             else:
                 tgt_true = tb
+        if t.get('name') == 'ne':
+            tgt_true, tgt_false = tgt_false, tgt_true
         rows.append({'value': cv, 'bb': bb, 'true': tgt_true, 'false': tgt_false, 'lhs': other, 'switch': sw})
     return rows
 
@@ -1179,3 +1181,45 @@ def named_root(body, operand, limit=12):
             continue
         return None
     return None
+
+
+def prefix_writes(body, calls=None):
+    """writes into a message prefix: [(bb, width, endian, value term, call term)] for put_u8 / put_u32 / put_u32_le /
+    put_slice(&x.to_be_bytes() | to_le_bytes())"""
+    out = []
+    for bb, t in (calls if calls is not None else body.calls(pat='BufMut::put_')):
+        nm = t.get('name')
+        v = body.origin(t['args'][1]) if len(t['args']) > 1 else ('x',)
+        if nm == 'put_u8':
+            out.append((bb, 1, 'be', v, t))
+        elif nm in ('put_u32', 'put_u32_ne') and nm == 'put_u32':
+            out.append((bb, 4, 'be', v, t))
+        elif nm == 'put_u32_le':
+            out.append((bb, 4, 'le', v, t))
+        elif nm == 'put_slice':
+            tb = [x for x in _find(v, lambda x: is_call(x) and x[3] in ('to_be_bytes', 'to_le_bytes'))]
+            if tb:
+                ty = tb[0][4].get('fn') or ''
+                width = 4 if 'u32' in ty else (8 if 'u64' in ty else (2 if 'u16' in ty else None))
+                out.append((bb, width, 'be' if tb[0][3] == 'to_be_bytes' else 'le', tb[0][2][0], t))
+            else:
+                out.append((bb, None, '?', v, t))
+        else:
+            out.append((bb, None, '?', v, t))
+    return out
+
+
+def _find(t, pred, out=None):
+    if out is None:
+        out = []
+    if pred(t):
+        out.append(t)
+    if isinstance(t, tuple):
+        for x in t[1:]:
+            if isinstance(x, tuple):
+                _find(x, pred, out)
+            elif isinstance(x, list):
+                for y in x:
+                    if isinstance(y, tuple):
+                        _find(y, pred, out)
+    return out
